@@ -71,7 +71,8 @@ def dropTableToTable (name : String) (schema : Option String) (comment : Option 
   { name := name, schema := schema
     cols := match rev with | some r => r.cols | none => []
     cons := match rev with | some r => r.cons | none => []
-    comment := comment, extra := extra }
+    comment := comment, extra := extra
+    ixs := match rev with | some r => r.ixs | none => [] }
 
 /-- `DropColumnOp.to_column()` -/
 def dropColumnToColumn (column : String) (rev : Option Col) : Col :=
@@ -122,7 +123,8 @@ end
 
 /-- the op carries nothing that `reverse()` is known to lose (hypothesis of the `_partial`
 theorems): F13 operation-level directives (`if_exists`, `if_not_exists`, `**kw` of add/drop
-column) are rebuilt from the schema object and dropped.  The remaining conjuncts are
+column) are rebuilt from the schema object and dropped; F15 the indexes that a directly built
+`CreateTableOp` derives from `Column(index=True)` are not carried by `from_table`.  The remaining conjuncts are
 representation conditions, not findings: a `CreatePrimaryKeyOp` carries dialect kwargs only (no
 `deferrable`/`initially`: `create_primary_key` has no such parameter), index `kw` holds dialect
 kwargs only, and `create_table_comment(comment=None)` is a `drop_table_comment` in disguise. -/
@@ -130,8 +132,8 @@ def consClean (c : ConsDef) : Bool := c.roundTrip == c
 
 mutual
 def clean : Op → Bool
-  | .createTable _ f => f.isNone
-  | .dropTable _ _ f _ _ _ => f.isNone
+  | .createTable t f => f.isNone && t.ixs.isEmpty          -- F15: index=True flags
+  | .dropTable _ _ f _ _ rev => f.isNone && (match rev with | some r => r.ixs.isEmpty | none => true)
   | .addColumn _ _ _ kw => kw.isEmpty
   | .dropColumn _ _ _ kw _ => kw.isEmpty
   | .createIndex ix f => f.isNone && ix.kw.all (fun p => p.1 != "unique")   -- kw = dialect kwargs only
